@@ -78,6 +78,41 @@ theorem c20_monotone (s s' : HSt) (a : HAct) (h : hstep s a = some s') : s.heigh
     simp only [hstep] at h
     split at h <;> simp at h <;> subst h <;> simp [updateHeight_eq_max] <;> omega
 
+/-- … and hence over every execution, from every state (not only from `init`): no sequence of
+    chain moves, stale/repeated notifications, failed polls and timer firings lowers the register. -/
+theorem c20_monotone_run (acts : List HAct) (s s' : HSt) (h : hrun s acts = some s') :
+    s.height ≤ s'.height := by
+  induction acts generalizing s with
+  | nil => simp [hrun] at h; subst h; exact Nat.le_refl _
+  | cons a as ih =>
+    simp only [hrun] at h
+    cases hs : hstep s a with
+    | none => rw [hs] at h; simp at h
+    | some s1 =>
+      rw [hs] at h
+      exact Nat.le_trans (c20_monotone s s1 a hs) (ih s1 h)
+
+theorem foldl_max_ge_acc (l : List Nat) (acc : Nat) : acc ≤ l.foldl max acc := by
+  induction l generalizing acc with
+  | nil => simp
+  | cons x xs ih => simp only [List.foldl_cons]; exact Nat.le_trans (Nat.le_max_left acc x) (ih _)
+
+theorem foldl_max_ge_mem (l : List Nat) (acc n : Nat) (hn : n ∈ l) : n ≤ l.foldl max acc := by
+  induction l generalizing acc with
+  | nil => simp at hn
+  | cons x xs ih =>
+    simp only [List.foldl_cons]
+    simp only [List.mem_cons] at hn
+    rcases hn with rfl | hn
+    · exact Nat.le_trans (Nat.le_max_right acc n) (foldl_max_ge_acc xs _)
+    · exact ih _ hn
+
+/-- every height the plugin was ever told is a lower bound of the register, at every later time -/
+theorem c20_told_le (n0 : Nat) (acts : List HAct) (s : HSt) (h : hrun (HSt.init n0) acts = some s)
+    (n : Nat) (hn : n ∈ s.told) : n ≤ s.height := by
+  rw [c20_max n0 acts s h]
+  exact foldl_max_ge_mem s.told 0 n hn
+
 /-- consuming a successful poll reply that carried `n` leaves the register at least `n` -/
 theorem c20_poll_catches_up (s s' : HSt) (n : Nat) (hs : s.served = some (some n))
     (h : hstep s .deliver = some s') : n ≤ s'.height := by
